@@ -6,9 +6,13 @@ VARIABLE scn
 Init == \/ /\ "rate" \in Kinds
            /\ \E r \in Rates : \E b \in Bursts : \E bh \in Behaviours :
                  scn = [kind |-> "rate", rate |-> r, burst |-> b, behaviour |-> bh]
+        \/ /\ "bucket" \in Kinds
+           /\ \E r \in Rates : \E b \in Bursts : \E k \in 1..3 :
+                 scn = [kind |-> "bucket", rate |-> r, burst |-> b, rolls |-> k]
         \/ /\ "size" \in Kinds
            /\ \E s \in Sizes : \E m \in LenModes : \E rt \in Routes :
                  scn = [kind |-> "size", size |-> s, lenmode |-> m, route |-> rt]
+\* (the "bucket" kind: component-level limiter across window roll-overs)
 Next == FALSE /\ UNCHANGED scn
 Export == PrintT(<<"SCN", ToJson(scn)>>)
 =============================================================================
